@@ -205,10 +205,27 @@ def check_wf(ex, st, zobj, info, hb, version, timecnt, typecnt):
     # the file's own transitions appear in order inside the table
     if timecnt:
         lead = None
+        tb0 = base + tlen * timecnt
+        file_types = [smt.to_u(B[tb0 + i], 8) for i in range(timecnt)]
+        tab_types = [smt.to_u(TR(i, 8, I8), 8) for i in range(N)]
         for s in range(0, N - timecnt + 1):
-            c = and_(*[eq(unix[s + i], file_times[i]) for i in range(timecnt)])
+            c = and_(*[and_(eq(unix[s + i], file_times[i]), eq(tab_types[s + i], file_types[i])) for i in range(timecnt)])
             lead = c if lead is None else or_(lead, c)
-        ex.prove(st, lead, "Load => the recorded transition times are the file's big-endian two's-complement values, in file order")
+        ex.prove(st, lead, "Load => the recorded transition times are the file's big-endian two's-complement values, in file order, each with the file's type index")
+    if typecnt <= 4 and T >= typecnt:
+        # the local-time types are the file's ttinfo records, field by field; the abbreviation table is the file's, byte for byte
+        yb0 = base + (tlen + 1) * timecnt
+        for t in range(typecnt):
+            foff = smt.wrap_s(be(B[yb0 + 6 * t: yb0 + 6 * t + 4]), 32)
+            ex.prove(st, and_(eq(TY(t, 0, I32), foff), eq(ne(TY(t, 40, I8), 0), ne(B[yb0 + 6 * t + 4], 0)), eq(smt.to_u(TY(t, 41, I8), 8), smt.to_u(B[yb0 + 6 * t + 5], 8))),
+                     "Load => type %d has the file's utc offset (big-endian, signed), DST flag and abbreviation index" % t)
+        cb0 = yb0 + 6 * typecnt
+        an = ex.implied(st, eq(asize, 0))
+        if not smt.is_sym(asize):
+            ad = ex.load(st, Ptr(zobj.obj, 64), PtrTy(I8))
+            for i in range(asize):
+                ex.prove(st, eq(smt.to_u(ex.load(st, Ptr(ad.obj, ad.off + i), I8), 8), smt.to_u(B[cb0 + i], 8)), "Load => abbreviations_ holds the file's abbreviation bytes")
+            ex.prove(st, eq(be(B[hb + 40: hb + 44]), asize), "Load => abbreviations_ has exactly charcnt bytes")
     # the before-first-transition type, read off the bytes by the rule of tzcode's localtime.c: type 0 unless a transition uses
     # type 0; then, if type 0 is DST, the nearest standard type at or below the first transition's type, and from there the first
     # standard type going up (none: type 0)
